@@ -202,19 +202,30 @@ static Scenario make_scenario(int idx, bool concurrent)
         case 9:
         case 10:
         case 11: {  // atomic_guarded store / exchange / compare_exchange (success and failure paths)
-            auto ag = std::make_shared<atomic_guarded<Cell, vrf::mutex_t>>(false);
-            ag->store(vrf::make_value(1));
-            auto val = std::make_shared<Cell>(vrf::make_value(5));
+            // payload: a move constructor that takes the data away, and a (throwing, strong-guarantee) copy assignment that
+            // also serves rvalues - there is no move assignment. Assigning from a temporary must leave the register intact
+            // when the assignment throws; moving the register's value out first and assigning afterwards would not.
+            struct CACell: Cell {
+                CACell() = default;
+                explicit CACell(bool e): Cell(e) {}
+                CACell(const Cell& c): Cell(c) {}  // NOLINT
+                CACell(const CACell&) = default;
+                CACell(CACell&&) = default;
+                CACell& operator=(const CACell&) = default;
+            };
+            auto ag = std::make_shared<atomic_guarded<CACell, vrf::mutex_t>>(false);
+            ag->store(CACell(vrf::make_value(1)));
+            auto val = std::make_shared<CACell>(vrf::make_value(5));
             static const char* nm[] = {"atomic_guarded::store", "atomic_guarded::exchange", "atomic_guarded::compare_exchange (equal)", "atomic_guarded::compare_exchange (different)"};
             s.name = nm[idx - 8];
             s.mask = M_VALUE;
             s.thrower = [ag, val, idx] {
                 if (idx == 8) ag->store(*val);
                 else if (idx == 9) {
-                    Cell old = ag->exchange(*val);
+                    CACell old = ag->exchange(*val);
                     old.check("exchanged");
                 } else {
-                    Cell expected;
+                    CACell expected;
                     {
                         uint32_t m = vrf::ctx().throw_mask;  // building the argument is not part of the operation under test
                         vrf::ctx().throw_mask = 0;
@@ -226,18 +237,18 @@ static Scenario make_scenario(int idx, bool concurrent)
             };
             s.after = [ag, name = s.name](bool, long) {
                 if (vrf::held_count() != 0) vio("oracle:lock_not_released_after_throw", name);
-                Cell c = ag->load();
+                CACell c = ag->load();
                 c.check("after throw");
             };
             s.partner = [ag] {
                 for (int i = 0; i < 2; i++) {
-                    Cell c = ag->load();
+                    CACell c = ag->load();
                     c.check("partner load");
                     if (c.value() != 1 && c.value() != 5) vrf::violation("oracle:object_state_wrong_after_throw", std::to_string(c.value()));
                 }
             };
             s.verify = [ag, idx, name = s.name](bool threw, long) {
-                Cell c = ag->load();
+                CACell c = ag->load();
                 c.check("final");
                 uint32_t v = c.value();
                 bool ok = threw ? (v == 1 || v == 5) : (idx == 11 ? v == 1 : v == 5);
